@@ -20,6 +20,8 @@ META['level_text'] += ' R3: the structural clauses of the conversion pipeline th
 META["level_note"] = "Trusted: serde_json's Serializer/Deserializer for Value (arrays, strings, numbers), rustc MIR/HIR, tmfacts. Not decided: that convert(parse(x)) is the identity on alias-free input beyond the per-field agreement and the pipeline clauses shown here (same limit as C13)."
 META["technique"] += '; re-run of the conversion-pipeline clauses (C13-S2..S6)'
 META['level_text'] += ' R1 also: the saved file is opened with write+truncate (or File::create), never append: it holds exactly what was serialised now.'
+META['level_text'] += ' R8: each attribute of a Special repeat is built from the key of the same name, numbers through the parsers R7 reads.'
+META['level_text'] += ' R7: delay_ms/interval_ms are read as the integer of the JSON number with no conversion narrower than the field.'
 META['level_text'] += ' R6: parse_layout_from_json refuses a document only for its shape, for a mapping parse_mapping_from_json refuses, or for an undefined alias -- no condition on the list as a whole.'
 META['level_text'] += ' R5: on the path a saved (plain) mapping takes through parse_mapping_from_json, the only rejection that is not the failure of a field parser is the absorbed-modifier check, and that check is a plain membership test of each absorbed key in the trigger\'s modifier list (no state carried from one element to the next), so it cannot refuse a list the converter derived from those modifiers.'
 # --- end additions
@@ -384,6 +386,8 @@ def run(ctx):
     r4_reader_lists(ctx, ck)
     r5_cross_field_rejections(ctx, ck)
     r6_layout_level_rejections(ctx, ck)
+    r7_number_fields(ctx, ck)
+    r8_special_attributes(ctx, ck)
 
 
 def _absorb_src(ab):
@@ -854,3 +858,108 @@ def r6_layout_level_rejections(ctx, ck):
     ck.analysed["layout_level_rejections"] = n
     ck.floor("C15-R6", "layout-level-rejection-sites", n, 3)
     ck.ob("C15-R6", fn, "the-per-mapping-parser-is-the-one-R5-looks-at", "mapping-refused-by-parse_mapping_from_json" in classes)
+
+
+# ---------------------------------------------------------------------------------------------------------------
+# R7: the two numbers of a Special repeat come back as written
+def _int_bits(ty):
+    import re
+    m = re.match(r"^[iu](8|16|32|64|128|size)$", ty or "")
+    if not m:
+        return None
+    return 64 if m.group(1) == "size" else int(m.group(1))
+
+
+def r7_number_fields(ctx, ck):
+    """serde writes delay_ms / interval_ms as the JSON integer of the field's value; the reader takes the integer of the
+    JSON number (`as_i64`) and converts it to the field's type.  That is the identity as long as no conversion on the
+    way is narrower than the field itself and nothing is computed from the number."""
+    width = {}
+    for v in ctx.adt("keys::Repeat")["variants"]:
+        for f in v["fields"]:
+            if f["name"] in ("delay_ms", "interval_ms"):
+                width[f["name"]] = _int_bits(f["ty"])
+    for name in ("delay_ms", "interval_ms"):
+        fn = "layout_parsing_formatting::parse_repeat_" + name
+        b = ctx.body(fn)
+        need = width.get(name)
+        ck.ob("C15-R7", fn, "the-field-is-an-integer-type", need is not None, detail="keys::Repeat::Special.%s" % name)
+        oks = [p_ for p_ in mir.walk_function(b) if p_.outcome[0] == "return" and isinstance(p_.outcome[1], tuple)
+               and p_.outcome[1][0] == "agg" and p_.outcome[1][2] == "Ok"]
+        ck.ob("C15-R7", fn, "accepting-path-found", bool(oks))
+        for p_ in oks:
+            x = p_.outcome[1][3][0]
+            narrow = None
+            while isinstance(x, tuple) and x and x[0] == "cast":
+                bts = _int_bits(x[2])
+                if bts is None or (need is not None and bts < need):
+                    narrow = x[2]
+                x = x[1]
+            subs = _subterms(x)
+            src = [s for s in subs if isinstance(s, tuple) and s and s[0] == "call" and s[1] == "serde_json::Number::as_i64"
+                   and s[2] and mir.strip(s[2][0]) == T("field", T("variant", T("param", 1, b.dbg.get(1, "")), "Number"), "0")]
+            arith = [s for s in subs if isinstance(s, tuple) and s and s[0] in ("binop", "unop", "checked")]
+            whole = bool(src) and not arith and (x == src[0] or (isinstance(x, tuple) and x[0] in ("okval", "someval", "call")))
+            ck.ob("C15-R7", fn, "value==the-JSON-number's-integer(as_i64-of-the-argument,nothing-computed)", whole, detail=None if whole else show(x)[:160])
+            ck.ob("C15-R7", fn, "no-conversion-narrower-than-the-field(%s-bit)" % need, narrow is None,
+                  detail=None if narrow is None else "the number passes through `%s` on its way to the %s-bit field: a saved value outside that range reloads as another number" % (narrow, need))
+
+
+# ---------------------------------------------------------------------------------------------------------------
+# R8: each attribute of a Special repeat is read from the key the writer puts it under
+def r8_special_attributes(ctx, ck):
+    """The derived writer puts field f of Repeat::Special under the key "f" (R2 reads those names from the Serialize
+    impl).  The reader must build field f from `get("f")` -- two same-typed numbers exchanged still type-check."""
+    number_parsers = {"layout_parsing_formatting::parse_repeat_delay_ms", "layout_parsing_formatting::parse_repeat_interval_ms"}
+    n = 0
+    for fn in ("layout_parsing_formatting::parse_single_repeat", "layout_parsing_formatting::parse_row_repeat"):
+        b = ctx.body(fn)
+        for p_ in mir.walk_function(b):
+            o = p_.outcome
+            if not (o[0] == "return" and isinstance(o[1], tuple) and o[1][0] == "agg" and o[1][2] == "Ok"):
+                continue
+            v = o[1][3][0]
+            if not (isinstance(v, tuple) and v[0] == "agg" and v[2] == "Special"):
+                continue
+            names = v[4]
+            for f, a in zip(names, v[3]):
+                n += 1
+                strs = {s[1][1] for s in _subterms(a) if isinstance(s, tuple) and len(s) > 1 and s[0] == "const" and isinstance(s[1], tuple) and s[1] and s[1][0] == "str"}
+                own = strs & set(names)
+                ok = own == {f}
+                ck.ob("C15-R8", fn, "Special.%s<-get(\"%s\")" % (f, f), ok,
+                      detail=None if ok else "field `%s` of the Special repeat is built from the attribute(s) %s" % (f, sorted(own) or "none"))
+                if f in ("delay_ms", "interval_ms"):
+                    calls = {s[1] for s in _subterms(a) if isinstance(s, tuple) and s and s[0] == "call" and isinstance(s[1], str) and s[1] in ctx.F.raw_bodies}
+                    okp = bool(calls) and calls <= number_parsers
+                    ck.ob("C15-R8", fn, "Special.%s-goes-through-a-number-parser-R7-has-read(and-nothing-else)" % f, okp,
+                          detail=None if okp else "crate-local calls on the way: %s" % sorted(calls))
+    ck.floor("C15-R8", "Special-attributes-read", n, 6)
+    # the same for the mapping records themselves: field f of every record parse_mapping_from_json builds is read from
+    # the attribute "f" (a saved mapping is the Single record; the others are the shorthand forms)
+    fn = "layout_parsing_formatting::parse_mapping_from_json"
+    b = ctx.body(fn)
+    n = 0
+    done = set()
+    for p_ in mir.walk_function(b):
+        o = p_.outcome
+        if not (o[0] == "return" and isinstance(o[1], tuple) and o[1][0] == "agg" and o[1][2] == "Ok"):
+            continue
+        v = o[1][3][0]
+        rec = v[3][0] if isinstance(v, tuple) and v[0] == "agg" and v[1] == "fancy_keys::Mapping" and v[3] else None
+        if not (isinstance(rec, tuple) and rec[0] == "agg" and len(rec) > 4):
+            ck.ob("C15-R8", fn, "accepted-mapping-is-a-record-built-in-place", False, detail=show(v)[:120])
+            continue
+        names = rec[4]
+        for f, a in zip(names, rec[3]):
+            strs = {s[1][1] for s in _subterms(a) if isinstance(s, tuple) and len(s) > 1 and s[0] == "const" and isinstance(s[1], tuple) and s[1] and s[1][0] == "str"}
+            own = strs & {"from", "to", "repeat", "absorbing"}
+            ok = own == {f}
+            key = (rec[2], f, ok)
+            if key in done:
+                continue
+            done.add(key)
+            n += 1
+            ck.ob("C15-R8", fn, "%s.%s<-get(\"%s\")" % (rec[2], f, f), ok,
+                  detail=None if ok else "field `%s` of %s is built from the attribute(s) %s" % (f, rec[2], sorted(own) or "none"))
+    ck.floor("C15-R8", "mapping-record-fields-read", n, 12)
